@@ -312,6 +312,11 @@ func Run(f interface{}, n int, x Vector, args ...interface{}) (Vector, int64, er
       return x, seed.Value, fmt.Errorf("multiple regularizations are not supported")
     }
   }
+  // with a finite number of iterations epsilon <= 0 simply means `run all
+  // iterations', otherwise nothing would ever stop the algorithm
+  if !(epsilon.Value > 0.0) && maxIterations.Value == int(^uint(0) >> 1) && hook.Value == nil {
+    return x, seed.Value, fmt.Errorf("epsilon must be positive if neither MaxIterations nor a Hook is given")
+  }
   if l1reg.Value < 0.0 {
     return x, seed.Value, fmt.Errorf("invalid l1-regularization constant")
   }
